@@ -200,8 +200,16 @@ func (e *env) viol(key, scenario, msg string, input interface{}) {
 }
 
 // pairs: every filter alone in a fresh store against every name and QoS.
-func pairs(e *env, maxLevels int) {
-	strs := allStrings(levelAlphabet, maxLevels)
+func pairs(e *env, maxLevels int) { pairsOver(e, levelAlphabet, maxLevels) }
+
+// pairsOver: strings that begin with '$' are left out (the properties do not speak about them).
+func pairsOver(e *env, alpha []string, maxLevels int) {
+	var strs []string
+	for _, s := range allStrings(alpha, maxLevels) {
+		if !strings.HasPrefix(s, "$") {
+			strs = append(strs, s)
+		}
+	}
 	var names []string
 	for _, s := range strs {
 		if refmatch.ValidName(s) {
@@ -560,7 +568,7 @@ func histClass(s string) string {
 // C06 entry point.
 func C06(c *core.Ctx) {
 	e := &env{c: c}
-	c.Rep.Bound = "pairs: all filters and names of 1..4 levels over {a,b,empty,+,#}; histories: 2 subscribers x filters x QoS 0-2 + retained updates, all sequences to depth 3 and BFS with de-duplication to depth 5 (quick) / all sequences to depth 4 and BFS to fixpoint or depth 8 (thorough)"
+	c.Rep.Bound = "pairs: all filters and names of 1..4 levels over {a,b,empty,+,#} and of 1..3 levels over {a,$x,x$,$,+,#,+$,#$} (not beginning with $); histories: 2 subscribers x filters x QoS 0-2 + retained updates, all sequences to depth 3 and BFS with de-duplication to depth 5 (quick) / all sequences to depth 4 and BFS to fixpoint or depth 8 (thorough)"
 	c.Rep.Rule = "ENUM over all filter/name pairs (each valid filter alone in a fresh real MemTopics, every name, subscription and publish QoS; invalid filters must be rejected without effect; same for the retained relation) + HIST over subscribe/unsubscribe/retain histories compared with refmatch after every history; non-trivial = pairs that match / distinct model states"
 	if c.Replay != nil {
 		fmt.Printf("replay %s\n  %s\n  input: %s\n", c.Replay.Scenario, c.Replay.Message, string(c.Replay.Input))
@@ -568,6 +576,10 @@ func C06(c *core.Ctx) {
 		return
 	}
 	pairs(e, 4)
+	c.Rep.Scenarios++
+	// '$' is an ordinary character except at the very beginning of a topic: levels that
+	// begin or end with it below the first level, and wildcards with a '$' stuck to them
+	pairsOver(e, []string{"a", "$x", "x$", "$", "+", "#", "+$", "#$"}, 3)
 	c.Rep.Scenarios++
 	filters := []string{"a", "a/b", "a/+", "a/#", "#", "+/b"}
 	rnames := []string{"a", "a/b", "b"}
